@@ -82,7 +82,7 @@ func main() {
 		}
 
 		n := c.Size(2500, 40000)
-		for i := 0; i < n; i++ {
+		for i := 0; i < n && !scanx.Hung; i++ {
 			r := c.R
 			cfg := &scanx.Cfg{SymlinkMode: slModes[i%3], PermsMode: pmModes[(i/3)%2]}
 			px, du := (i/6)%2 == 0, (i/12)%4 == 3
